@@ -33,6 +33,7 @@ verus! {
 //@include spec/names.rs
 //@include spec/plain.rs
 //@include spec/grammar_view.rs
+//@include spec/roundtrip.rs
 //@include spec/indep.rs
 //@include spec/subst.rs
 //@include spec/rewrites.rs
